@@ -429,7 +429,13 @@ func (r *ComboRoute) route(fn func(string, ...Handler) *Route, method string, ha
 	}
 	r.added[method] = struct{}{}
 
-	r.lastRoute = fn(r.routePath, append(r.handlers, handlers...)...)
+	// Allocate a new slice to avoid handlers of different methods sharing the same
+	// backing array of common handlers.
+	hs := make([]Handler, 0, len(r.handlers)+len(handlers))
+	hs = append(hs, r.handlers...)
+	hs = append(hs, handlers...)
+
+	r.lastRoute = fn(r.routePath, hs...)
 	return r
 }
 
